@@ -14,6 +14,7 @@ Runtime part (heap, goroutine stack, quadratic time on deep nesting) is measured
 code in an isolated worker by the correspondence run; it is not in the model.
 -/
 import SecsModel.Model.Parser
+import SecsModel.Proofs.Lexer
 import SecsModel.Generated.Facts
 namespace Secs.C06
 open Secs Secs.Sml Secs.Lex
@@ -63,6 +64,33 @@ theorem lex_bounded (ual : List Nat) (fuel : Nat) (m : Mode) (p : Pos) : (lexFue
 
 theorem lexAll_bounded (ual : List Nat) (input : Bytes) : (lexAll ual input).length ≤ input.length + 1 :=
   lex_bounded ual _ _ _
+
+/-- the lexer makes progress: a step that emits a non-terminal token consumes at least one byte
+of the input (so no state function can loop without reading) -/
+theorem lexer_progress (ual : List Nat) (m : Mode) (p : Pos) (t : Tok) (m' : Mode) (p' : Pos)
+    (h : lexStep ual m p = .tok t m' p') : p'.rest.length < p.rest.length :=
+  lexStep_decreases ual m p t m' p' h
+
+/-- the fuel of `lexAll` is never what stops the token stream: any larger fuel gives the same
+stream, for every input -/
+theorem lexer_fuel_irrelevant (ual : List Nat) (input : Bytes) (k : Nat) :
+    lexFuel ual (input.length + 1 + k) .header ⟨input, 1, []⟩ = lexAll ual input :=
+  lexFuel_stable ual _ _ _ k (by simp)
+
+/-- for every input the token stream is finite and closed by exactly one terminal token (EOF or
+a lexing error); no terminal token occurs before the end -/
+theorem lexer_terminates (ual : List Nat) (input : Bytes) :
+    ∃ ts t, lexAll ual input = ts ++ [t] ∧ (t.kind = .eof ∨ t.kind = .error) ∧
+      ∀ x ∈ ts, x.kind ≠ .eof ∧ x.kind ≠ .error :=
+  lexAll_terminal ual input
+
+/-- every token — hence every diagnostic the parser stamps with a token's position — carries
+the true line and column of an offset of the input: line = 1 + line feeds in front of the
+offset, column = 1 + runes since the start of that line -/
+theorem positions_true (ual : List Nat) (input : Bytes) (t : Tok) (h : t ∈ lexAll ual input) :
+    ∃ pre suf, input = pre ++ suf ∧ t.line = 1 + pre.count 10 ∧
+      t.col = 1 + (Utf8.runes ((pre.reverse.takeWhile (· != 10)).reverse)).length :=
+  lexAll_positions ual input t h
 
 /-- the parser reports a lexing error through a diagnostic, never by a panic: an error token in
 a value position stops the message with a "syntax error" diagnostic -/
